@@ -1491,8 +1491,8 @@ func (w *world) exprObj(info *types.Info, e ast.Expr) types.Object {
 	return nil
 }
 
-// resetsParam: the declared function re-arms its idx-th parameter by a Reset at the top level of its body (or hands it on
-// to a function that does)
+// resetsParam: the declared function re-arms its idx-th parameter on every path that returns normally (or hands it on to a
+// function that does)
 func (w *world) resetsParam(fn *types.Func, idx int, depth int) bool {
 	d, ok := w.decls[fn]
 	if !ok || d.fd.Body == nil || depth > 4 {
@@ -1517,12 +1517,27 @@ func (w *world) resetsParam(fn *types.Func, idx int, depth int) bool {
 	if po == nil {
 		return false
 	}
-	for _, st := range d.fd.Body.List {
-		if w.stmtResets(d.pkg, st, po, depth) {
-			return true
+	// every path that leaves the function normally (end of the body, `return`, `return nil …`) must have re-armed the
+	// parameter; a return that hands back a non-nil error is taken to end the caller's loop
+	ok2 := true
+	tf := &timerFlow{w: w, pi: d.pkg, t: po, depth: depth + 1, onReturn: func(r *ast.ReturnStmt, cur bool) {
+		if cur {
+			return
 		}
+		for _, res := range r.Results {
+			if tv, has := d.pkg.info.Types[res]; !has || !tv.IsNil() {
+				if id, isId := res.(*ast.Ident); !isId || id.Name != "nil" {
+					return // an error (or some value) is returned: not the success path
+				}
+			}
+		}
+		ok2 = false
+	}}
+	cur, falls := tf.flow(d.fd.Body.List, false, false)
+	if falls && !cur {
+		ok2 = false
 	}
-	return false
+	return ok2
 }
 
 // stmtResets: the statement is (an assignment of / an expression statement of) t.Reset(…) or f(…, t, …) with f re-arming it
@@ -1561,6 +1576,129 @@ func (w *world) stmtResets(pi *pkgInfo, st ast.Stmt, t types.Object, depth int) 
 	return false
 }
 
+// timerFlow: structured path analysis "is timer t re-armed on every path" over if / switch / select / continue / break / return
+type timerFlow struct {
+	w          *world
+	pi         *pkgInfo
+	t          types.Object
+	depth      int
+	onContinue func(pos token.Pos, cur bool)
+	onReturn   func(r *ast.ReturnStmt, cur bool)
+}
+
+func mergeFlow(outs [][2]bool) (bool, bool) {
+	cur, falls := true, false
+	for _, o := range outs {
+		if o[1] {
+			falls = true
+			cur = cur && o[0]
+		}
+	}
+	return cur, falls
+}
+
+func (tf *timerFlow) one(st ast.Stmt, cur bool, inSwitch bool) (bool, bool) {
+	w, info, t := tf.w, tf.pi.info, tf.t
+	switch x := st.(type) {
+	case *ast.LabeledStmt:
+		return tf.one(x.Stmt, cur, inSwitch)
+	case *ast.ExprStmt, *ast.AssignStmt:
+		if w.stmtResets(tf.pi, st, t, tf.depth) {
+			return true, true
+		}
+		if es, ok := st.(*ast.ExprStmt); ok {
+			if c, ok := es.X.(*ast.CallExpr); ok {
+				if id, ok := c.Fun.(*ast.Ident); ok && id.Name == "panic" {
+					return cur, false
+				}
+			}
+		}
+		return cur, true
+	case *ast.ReturnStmt:
+		if tf.onReturn != nil {
+			tf.onReturn(x, cur)
+		}
+		return cur, false
+	case *ast.BranchStmt:
+		switch x.Tok {
+		case token.CONTINUE:
+			if tf.onContinue != nil {
+				tf.onContinue(x.Pos(), cur)
+			}
+			return cur, false
+		case token.BREAK:
+			if inSwitch && x.Label == nil {
+				return cur, true // leaves the switch / select only
+			}
+			return cur, false
+		}
+		return cur, false
+	case *ast.BlockStmt:
+		return tf.flow(x.List, cur, inSwitch)
+	case *ast.IfStmt:
+		if x.Init != nil {
+			cur, _ = tf.one(x.Init, cur, inSwitch)
+		}
+		c1, f1 := tf.flow(x.Body.List, cur, inSwitch)
+		c2, f2 := cur, true
+		if x.Else != nil {
+			c2, f2 = tf.one(x.Else, cur, inSwitch)
+		}
+		return mergeFlow([][2]bool{{c1, f1}, {c2, f2}})
+	case *ast.SwitchStmt, *ast.TypeSwitchStmt:
+		var body *ast.BlockStmt
+		if sw, ok := x.(*ast.SwitchStmt); ok {
+			body = sw.Body
+		} else {
+			body = x.(*ast.TypeSwitchStmt).Body
+		}
+		var outs [][2]bool
+		hasDefault := false
+		for _, c := range body.List {
+			cc := c.(*ast.CaseClause)
+			if cc.List == nil {
+				hasDefault = true
+			}
+			c1, f1 := tf.flow(cc.Body, cur, true)
+			outs = append(outs, [2]bool{c1, f1})
+		}
+		if !hasDefault {
+			outs = append(outs, [2]bool{cur, true})
+		}
+		return mergeFlow(outs)
+	case *ast.SelectStmt:
+		var outs [][2]bool
+		for _, c := range x.Body.List {
+			cc := c.(*ast.CommClause)
+			start := cur
+			if cc.Comm != nil {
+				if u := recvOf(cc.Comm); u != nil {
+					if s, ok := unparen(u.X).(*ast.SelectorExpr); ok && s.Sel.Name == "C" && w.exprObj(info, s.X) == t {
+						start = false // the timer has fired: it is no longer armed
+					}
+				}
+			}
+			c1, f1 := tf.flow(cc.Body, start, true)
+			outs = append(outs, [2]bool{c1, f1})
+		}
+		return mergeFlow(outs)
+	case *ast.ForStmt, *ast.RangeStmt:
+		return cur, true // an inner loop: what it does to the timer is not relied upon
+	}
+	return cur, true
+}
+
+func (tf *timerFlow) flow(list []ast.Stmt, cur bool, inSwitch bool) (bool, bool) {
+	for _, st := range list {
+		var f bool
+		cur, f = tf.one(st, cur, inSwitch)
+		if !f {
+			return cur, false
+		}
+	}
+	return cur, true
+}
+
 func (w *world) checkTimers(fr *frame, loop *ast.ForStmt) {
 	info := fr.pkg.info
 	// the timers received from in a select at the top level of the loop body
@@ -1589,115 +1727,13 @@ func (w *world) checkTimers(fr *frame, loop *ast.ForStmt) {
 	for t, name := range timers {
 		var bad []string
 		edgeKey := fmt.Sprintf("%s (%s) timer %s", w.rel(loop.Pos()), fr.fnName, name)
-		var flow func(list []ast.Stmt, cur bool, inSwitch bool) (bool, bool)
-		var one func(st ast.Stmt, cur bool, inSwitch bool) (bool, bool)
-		merge := func(outs [][2]bool) (bool, bool) {
-			cur, falls := true, false
-			for _, o := range outs {
-				if o[1] {
-					falls = true
-					cur = cur && o[0]
-				}
+		tf := &timerFlow{w: w, pi: fr.pkg, t: t, onContinue: func(pos token.Pos, cur bool) {
+			w.timerEdges[[2]string{edgeKey, fmt.Sprintf("`continue` at %s", w.rel(pos))}] = cur
+			if !cur {
+				bad = append(bad, fmt.Sprintf("`continue` at %s", w.rel(pos)))
 			}
-			return cur, falls
-		}
-		one = func(st ast.Stmt, cur bool, inSwitch bool) (bool, bool) {
-			switch x := st.(type) {
-			case *ast.LabeledStmt:
-				return one(x.Stmt, cur, inSwitch)
-			case *ast.ExprStmt, *ast.AssignStmt:
-				if w.stmtResets(fr.pkg, st, t, 0) {
-					return true, true
-				}
-				if es, ok := st.(*ast.ExprStmt); ok {
-					if c, ok := es.X.(*ast.CallExpr); ok {
-						if id, ok := c.Fun.(*ast.Ident); ok && id.Name == "panic" {
-							return cur, false
-						}
-					}
-				}
-				return cur, true
-			case *ast.ReturnStmt:
-				return cur, false
-			case *ast.BranchStmt:
-				switch x.Tok {
-				case token.CONTINUE:
-					w.timerEdges[[2]string{edgeKey, fmt.Sprintf("`continue` at %s", w.rel(x.Pos()))}] = cur
-					if !cur {
-						bad = append(bad, fmt.Sprintf("`continue` at %s", w.rel(x.Pos())))
-					}
-					return cur, false
-				case token.BREAK:
-					if inSwitch && x.Label == nil {
-						return cur, true // leaves the switch / select only
-					}
-					return cur, false
-				}
-				return cur, false
-			case *ast.BlockStmt:
-				return flow(x.List, cur, inSwitch)
-			case *ast.IfStmt:
-				if x.Init != nil {
-					cur, _ = one(x.Init, cur, inSwitch)
-				}
-				c1, f1 := flow(x.Body.List, cur, inSwitch)
-				c2, f2 := cur, true
-				if x.Else != nil {
-					c2, f2 = one(x.Else, cur, inSwitch)
-				}
-				return merge([][2]bool{{c1, f1}, {c2, f2}})
-			case *ast.SwitchStmt, *ast.TypeSwitchStmt:
-				var body *ast.BlockStmt
-				if sw, ok := x.(*ast.SwitchStmt); ok {
-					body = sw.Body
-				} else {
-					body = x.(*ast.TypeSwitchStmt).Body
-				}
-				var outs [][2]bool
-				hasDefault := false
-				for _, c := range body.List {
-					cc := c.(*ast.CaseClause)
-					if cc.List == nil {
-						hasDefault = true
-					}
-					c1, f1 := flow(cc.Body, cur, true)
-					outs = append(outs, [2]bool{c1, f1})
-				}
-				if !hasDefault {
-					outs = append(outs, [2]bool{cur, true})
-				}
-				return merge(outs)
-			case *ast.SelectStmt:
-				var outs [][2]bool
-				for _, c := range x.Body.List {
-					cc := c.(*ast.CommClause)
-					start := cur
-					if cc.Comm != nil {
-						if u := recvOf(cc.Comm); u != nil {
-							if s, ok := unparen(u.X).(*ast.SelectorExpr); ok && s.Sel.Name == "C" && w.exprObj(info, s.X) == t {
-								start = false // the timer has fired: it is no longer armed
-							}
-						}
-					}
-					c1, f1 := flow(cc.Body, start, true)
-					outs = append(outs, [2]bool{c1, f1})
-				}
-				return merge(outs)
-			case *ast.ForStmt, *ast.RangeStmt:
-				return cur, true // an inner loop: what it does to the timer is not relied upon
-			}
-			return cur, true
-		}
-		flow = func(list []ast.Stmt, cur bool, inSwitch bool) (bool, bool) {
-			for _, st := range list {
-				var f bool
-				cur, f = one(st, cur, inSwitch)
-				if !f {
-					return cur, false
-				}
-			}
-			return cur, true
-		}
+		}}
+		flow := tf.flow
 		cur, falls := flow(loop.Body.List, true, false)
 		if falls {
 			w.timerEdges[[2]string{edgeKey, "end of the loop body"}] = cur
